@@ -48,7 +48,7 @@ class BoolInit(Contract):
         lc, constrain = self._args(a)
         constrain = kw.get("constrain", constrain)
         obj = r if r is not None else a[0]
-        d = {"V.wraps": obj.lc is lc}
+        d = {"V.wraps": obj.lc is lc, "V.inv": c.inv(obj)}       # the boolean reports the value its wire expression has
         if constrain:
             d["S.bool"] = Implies(on(c), is01(c.eva(lc)))
             d["canary.S.bool"] = Implies(on(c), c.eva(lc) == 0)
